@@ -1635,6 +1635,16 @@ impl Scenario for EmfHistory {
             let sample = if jb(&cfg, "sampled", false) && rng.chance(0.7) { json!([*rng.pick(&[1.0, 0.5, 0.25, 0.001, 0.001, 0.0, -0.5, 5.960_464_5e-8, 2.980_232_2e-8, 1e-8, 1e-30, 0.999_999_9]), rng.next_u64()]) } else { J::Null };
             // now and then the long-lived formatter is replaced by its own clone (same configuration, a history)
             calls.push(json!({"entry": entry, "fault": fault, "sample": sample, "clone_first": rng.chance(0.06)}));
+            // (a fifth of the calls, in runs of two or three: the entry has no timestamp of its own; from a copy of
+            // the generator)
+            let pk = rng.clone().next_u64();
+            let n_now = calls.len();
+            if pk % 5 == 0 {
+                calls[n_now - 1]["drop_ts"] = json!(true);
+                if n_now >= 2 && pk % 2 == 0 {
+                    calls[n_now - 2]["drop_ts"] = json!(true);
+                }
+            }
         }
         // a tenth of the histories: two entries in a row whose only floating-point observation is a zero, positive in
         // the first and negative in the second (equal as numbers, different as text); from a copy of the generator
@@ -1687,7 +1697,24 @@ impl Scenario for EmfHistory {
             }
         }
         for (i, call) in ja(plan, "calls").iter().enumerate() {
-            let spec = &call["entry"];
+            // the wall clock moves from call to call (an entry without a timestamp gets it); both formatters of one
+            // call see the same instant
+            detsim::time::set_wall_override_ns(Some(1_700_000_000_000_000_000 + (i as u64 + 1) * 37_000_000));
+            // plan key `drop_ts` of a call: the entry writes no timestamp of its own
+            let spec_owned;
+            let spec = if jb(call, "drop_ts", false) {
+                let mut e = call["entry"].clone();
+                if let Some(items) = e.get_mut("items").and_then(|x| x.as_array_mut()) {
+                    if let Some(p) = items.iter().position(|it| js(it, "k", "") == "ts") {
+                        items.remove(p);
+                    }
+                }
+                r.probe("entry_without_a_timestamp", 1);
+                spec_owned = e;
+                &spec_owned
+            } else {
+                &call["entry"]
+            };
             let sampled = call.get("sample").and_then(|s| s.as_array()).map(|a| (a[0].as_f64().unwrap_or(1.0) as f32, a[1].as_u64().unwrap_or(0)));
             // writer for the long-lived formatter
             let mut w = FaultyWriter::perfect();
@@ -1775,7 +1802,8 @@ impl Scenario for EmfHistory {
                 ));
                 break;
             }
-            let mask = spec.get("report").is_some();
+            // (no masking any more: the fallback clock is the simulator's)
+            let mask = false;
             if lines_multiset(&w.received, mask) != lines_multiset(&fw.received, mask) {
                 r.violation = Some(Violation::new(
                     "output_depends_on_history",
